@@ -250,4 +250,26 @@ PROPS["C02"] = {
     "trusted": CODEC_TRUST,
 }
 
+PROPS["C06"] = {
+    "lean_modules": ["AvroModel.Props.C06"],
+    "required_theorems": ["read_total", "skip_total", "next_total", "next_rejects", "array_count_overflow_rejected", "parse_time_total"],
+    "harness": [("MAL", "C06")],
+    "careful": True,
+    "level_text": "Proof (partial by the allocation clause): for every codec tree, every byte string, every destination and every step budget the "
+                  "model of Codec.Read / Codec.Skip never panics (induction over the budget through all ten mutually recursive functions; slice "
+                  "bounds of ReadBuf.Next, union selector range, array count overflow), and timestamp parsing never panics (C18.total); the "
+                  "container reader and the schema parser are covered by C07.no_panic and C14. Not proved: an allocation / step bound - it is false "
+                  "for arrays (known finding D14: pre-allocation and iteration driven by the declared block count). Tie: a malformed stream against "
+                  "the real Read, Skip, ReadFile and SchemaFromString+Codec: every single-field mutation of every varint of generated valid "
+                  "encodings to negative / zero / maximal / overflowing / truncated, truncation at every field boundary, bit flips, random bytes, "
+                  "byte-level mutations of container files, mutated schema documents; outcome class (ok/err with remaining length) must equal the "
+                  "model's, panics/crashes/hangs and allocation above 4 MiB + 1 KiB per input byte are failing inputs; fatal crashes are isolated "
+                  "per case.",
+    "level_note": "Trusted: Lean kernel; differential tie; runtime.MemStats.TotalAlloc as allocation measure; hang = no result within 4 s. Allocation bound is checked, not proved.",
+    "rule": "Per generated (schema, datum, plan, target): all role-tagged varint mutations x {decode, skip}; plus container-file byte mutations for three "
+            "codecs, declared lengths beyond the input, truncations, random bytes with and without magic; schema JSON: every prefix of a document, "
+            "single-character edits, bare complex type names.",
+    "trusted": CODEC_TRUST,
+}
+
 NOT_APPLICABLE = {}
